@@ -714,11 +714,15 @@ func c15r3(c *Ctx) {
 	var curP ssa.Value
 	nZero := 0
 	// the status decision tree may live in an extracted helper: its returns are judged in place
-	for _, rc := range p.mwExpandResult(p.returnCases(fn), 1) {
+	// … and a result collected in one local and returned once is judged per reaching definition
+	for _, cc := range p.pfSplitCollected(p.mwExpandResult(p.returnCases(fn), 1), 1) {
+		rc := cc.ReturnCase
 		if len(rc.Results) != 3 || !isNilConst(stripConv(rc.Results[2])) {
 			continue
 		}
-		if !mwIsZeroStructConst(rc.Results[1]) {
+		if cc.Written == pfMaybeWritten {
+			// some paths through this edge leave the collected result untouched: judged as a zero result
+		} else if !mwIsZeroStructConst(rc.Results[1]) {
 			if rc.Results[1] == nil {
 				c.Ob(fn, "return-unresolved-result", rc.Ret, "probing result of a successful return must be resolvable").Unknown("several values may flow into the probing result at %s", p.IPos(rc.Ret))
 			}
